@@ -82,6 +82,7 @@ CONSTRUCTIONS = [["dots", 0], ["dots", 1], ["dots", 2], ["dots", 3], ["dots", 4]
 def run_construct(case):
     """case = [base label, construction, 'native'|'float']"""
     S = engine.S
+    S.sample(case)
     bname, con, numtype = case
     b = BASE_NUM[bname]
     if numtype == "float":
@@ -147,6 +148,7 @@ def near_items():
 def run_near(case):
     """case = [label, n, d, 'mul'|'div']: centre * (1 + n/d) or centre / (1 + n/d)."""
     S = engine.S
+    S.sample(case)
     label, n, d, how = case
     item = V.BY_LABEL[label]
     centre = item[1]
@@ -172,7 +174,7 @@ def run_near(case):
                         "below": v < centre})
 
 
-_NEAR = {"d": 10000}
+_NEAR = {"d": 20000}
 
 
 def gen_near(label):
@@ -190,6 +192,7 @@ def gen_near(label):
 def run_arith(case):
     """case = [label a, label b]"""
     S = engine.S
+    S.sample(case)
     la, lb = case
     a, b = V.BY_LABEL[la], V.BY_LABEL[lb]
     fa, fb = a[1], b[1]
@@ -237,6 +240,7 @@ RATIOS = [(r1, r2) for r1 in range(1, 10) for r2 in range(1, 10)]
 def run_helpers(case):
     """case = [label]: the named tuplet helpers and tuplet() itself on one vocabulary value."""
     S = engine.S
+    S.sample(case)
     item = V.BY_LABEL[case[0]]
     v, ex = item[1], item[2]
     checks = [("triplet", (v,), ex * 3 / 2, (3, 2)), ("quintuplet", (v,), ex * 5 / 4, (5, 4)),
@@ -317,6 +321,7 @@ def _call_predicate(S, name, arg):
 def run_meter(case):
     """case = [count, encoded unit]"""
     S = engine.S
+    S.sample(case)
     count, unit = case[0], dec_num(case[1])
     if not isinstance(count, int) or isinstance(count, bool):
         raise engine.HarnessError("counts are integers")
@@ -394,7 +399,7 @@ def explore(ctx):
         ctx.bound("bases", [n for n, _ in V.BASES])
         ctx.product("construct", [n for n, _ in V.BASES], gen_construct)
     if ctx.want("near"):
-        _NEAR["d"] = ctx.pick(10000, 50000)
+        _NEAR["d"] = ctx.pick(20000, 100000)
         labels = [i[0] for i in near_items()]
         if len(labels) != 50:
             raise engine.HarnessError("expected 50 recognised undotted/single-dotted values, got %d" % len(labels))
@@ -416,8 +421,8 @@ def explore(ctx):
         ctx.product("meter", counts, gen_meter)
     if not ctx.only:
         ctx.guard("constructed values analysed", ctx.counter("constructed_values_analysed"), 200)
-        ctx.guard("near-miss values below the centre", ctx.counter("near_below"), 4000)
-        ctx.guard("near-miss values above the centre", ctx.counter("near_above"), 4000)
+        ctx.guard("near-miss values below the centre", ctx.counter("near_below"), 9000)
+        ctx.guard("near-miss values above the centre", ctx.counter("near_above"), 9000)
         ctx.guard("value pairs added and subtracted back", ctx.counter("add_then_subtract_pairs"), 6400)
         ctx.guard("differences with a negative result", ctx.counter("negative_differences"), 1000)
         ctx.guard("valid meters", ctx.counter("meters_valid"), 100)
